@@ -275,6 +275,8 @@ def gen_venv_layout(root, outside, rng):
         nm = f"ed{j}_fix"
         tier = "plugin" if inside else "third_party"
         add(target, f"{base}/{pkgdir}/plugin.py", nm, tier)
+        for extra_ in range(rng.randint(0, 2)):
+            add(target, f"{base}/{pkgdir}/plugin.py", f"{nm}_x{extra_}", tier)      # several fixtures in one plugin module
         target[f"{base}/{pkgdir}/__init__.py"] = ""
         how = rng.choice(["none", "star", "explicit", "plugins"])
         if how != "none":
